@@ -84,11 +84,12 @@ typedef struct {
 } walk_result;
 
 static int walk_parent_type = -1;
+static int walk_prev_type = -1;
 static void walk_note(walk_result * r, int cls, token * t, long depth) {
 	if (r->count[cls]++ == 0 && r->msglen < (int) sizeof(r->msg) - 100) {
 		r->msglen += snprintf(r->msg + r->msglen, sizeof(r->msg) - r->msglen,
-							  "%s:type=%d,start=%zu,len=%zu,depth=%ld,parent=%d;", walk_class_name[cls],
-							  t ? t->type : -1, t ? t->start : 0, t ? t->len : 0, depth, walk_parent_type);
+							  "%s:type=%d,start=%zu,len=%zu,depth=%ld,parent=%d,prevtype=%d;", walk_class_name[cls],
+							  t ? t->type : -1, t ? t->start : 0, t ? t->len : 0, depth, walk_parent_type, walk_prev_type);
 	}
 }
 
@@ -158,6 +159,7 @@ static void walk_tree(token * root, size_t range_start, size_t range_len, size_t
 			if (t->type >= kMaxTokenTypes) walk_note(r, WK_TYPE, t, depth);
 			if (t->start > srclen || t->len > srclen || t->start + t->len > srclen) walk_note(r, WK_RANGE, t, depth);
 			if (t->prev != prev) walk_note(r, WK_PREV, t, depth);
+			walk_prev_type = prev ? prev->type : -1;
 			if (prev && t->start < prev->start) walk_note(r, WK_ORDER, t, depth);
 			if (t->mate && t->mate->mate != t) walk_note(r, WK_MATE, t, depth);
 			if (t->child) {
